@@ -143,7 +143,12 @@ def build_pool(cat, strip_citations=False):
                 ann["topology"] = rd.get("topology", "circular")
             for k, v in (rd.get("annotations") or {}).items():
                 ann[k] = v
-            rec = CircularRecord(Seq(rd["seq"]), id=rd.get("rec_id", rd["id"]), name=rd.get("name", rd["id"]), description=rd.get("description", "synthetic " + rd["id"]), dbxrefs=list(rd.get("dbxrefs", [])), features=feats, annotations=ann)
+            rec = CircularRecord(Seq(rd["seq"]), id=rd.get("rec_id", rd["id"]), name=rd.get("name", rd["id"]), description=rd.get("description", "synthetic " + rd["id"]), dbxrefs=list(rd.get("dbxrefs", [])), features=feats, annotations=ann if "topology" in ann else None)
+            if "topology" not in ann:
+                # a record that never had a topology entry: its annotations are filled in after
+                # construction, as a caller editing a freshly built record would
+                rec.annotations.pop("topology", None)
+                rec.annotations.update(ann)
         refs = rd.get("references")
         if refs is not None and not strip_citations:
             lst = []
